@@ -80,12 +80,19 @@ func (h *Hist) exec(op *Op) *OpResult {
 		for i, m := range op.Msgs {
 			msgs[i] = klevdb.Message{Offset: m.Garbage, Key: m.Key, Value: m.Value}
 			if !m.ZeroTime {
-				msgs[i].Time = time.UnixMicro(m.T).UTC()
+				msgs[i].Time = time.UnixMicro(m.T).UTC().Add(time.Duration(m.NS))
 			}
 		}
 		res.Stage = "publish"
 		res.Next, res.Err = kPublish(l, msgs)
 		res.Pub = toRefs(msgs)
+		for i, m := range op.Msgs {
+			if !m.ZeroTime {
+				// the published time is what the caller passed (kept at microsecond precision), not
+				// whatever Publish may have written back into the slice
+				res.Pub[i].T = m.T
+			}
+		}
 	case "delete":
 		set := offsetSet(op.Offsets)
 		res.Stage = "delete" + op.Variant
